@@ -89,7 +89,7 @@ def shard(member, acc):
     xml = M.render(S)
     sch = H.load_schema(xml)
     mid = {"label": list(member[0]), "placement": member[2], "keytype": member[3], "env": member[4],
-           "schema": xml}
+           "depth": member[5], "schema": xml}
     bfs.explore(S, sch, root, member[5], acc, lambda h, t: check_case(S, sch, h, t, acc, mid))
     acc.extra["schemas"] += 1
     return acc
@@ -130,15 +130,21 @@ def run(tier):
 
 def replay(body):
     case = body["case"]
-    xml = case["member"]["schema"]
+    m = case["member"]
+    member = (tuple(m["label"]), M.items_from_labels(m["label"]), m["placement"], m["keytype"], m["env"], m["depth"])
+    S, root = build(member)
+    assert M.render(S) == m["schema"], "schema of the replay file cannot be rebuilt"
+    hist = tuple(tuple(e) for e in case["events"])
     rc = 0
     for _ in range(2):
-        sch = H.load_schema(xml)
+        acc = core.Acc()
+        sch = H.load_schema(m["schema"])
+        check_case(S, sch, hist, case["text"], acc, m)
         obs = H.load(sch, case["text"])
+        print("text:\n" + case["text"])
         print("observed:", obs[0], repr(obs[1])[:200])
-        print("expected:", body["expected"])
-        exp = body["expected"][0] if isinstance(body["expected"], list) else body["expected"]
-        o = {"ok": "A", "rejected": "R", "internal": "I"}[obs[0]]
-        if o != exp:
+        print("reference:", R.decide(S, hist).verdict, R.decide(S, hist).clause)
+        for v in acc.violations.values():
+            print("REPLAY violation:", v["kind"])
             rc = 1
     return rc
